@@ -505,15 +505,26 @@ func TestC27(t *testing.T) {
 	for _, era := range allEras {
 		p := defaultParams(era)
 		p.KeyDeposit, p.PoolDeposit, p.DRepDeposit = 2_000_003, 500_000_007, 400_000_009
+		// pool 8 is registered; its pending-retirement epoch (second return value
+		// of PoolCurrentState) must not matter for the balance
+		retireStates := []struct {
+			name string
+			e    *uint64
+		}{{"none", nil}, {"epoch0", u64p(0)}, {"current", u64p(5)}, {"future", u64p(300)}, {"max", u64p(^uint64(0))}}
 		for _, sq := range certSweep(era, p) {
-			for _, delta := range []int64{0, 1, -1} {
-				c := buildCertCase(era, sq.Certs, p, delta)
-				if !certsValid(c.Tx.Certs, c.SS) {
-					t.Fatalf("harness: cert sweep sequence %s invalid", sq.Name)
+			for _, rs := range retireStates {
+				if rs.e != nil && !strings.HasPrefix(sq.Name, "pool-") {
+					continue // the pool state only matters for pool certificates
 				}
-				nCertSweep++
-				c27Judge(rec, c, fmt.Sprintf("certseq:%s:delta=%d", sq.Name, delta), func(m string) { t.Fatalf("%s", m) },
-					func(key, what string, cs any) bool { return rec.Violation(key, what, cs) })
+				for _, delta := range []int64{0, 1, -1, int64(p.PoolDeposit), -int64(p.PoolDeposit)} {
+					c := buildCertCase(era, sq.Certs, p, delta, rs.e)
+					if !certsValid(c.Tx.Certs, c.SS) {
+						t.Fatalf("harness: cert sweep sequence %s invalid", sq.Name)
+					}
+					nCertSweep++
+					c27Judge(rec, c, fmt.Sprintf("certseq:%s:pool-retiring=%s:delta=%d", sq.Name, rs.name, delta), func(m string) { t.Fatalf("%s", m) },
+						func(key, what string, cs any) bool { return rec.Violation(key, what, cs) })
+				}
 			}
 		}
 	}
@@ -657,6 +668,12 @@ func c27Judge(rec *evi.Recorder, c *Case, op string, fatal func(string), fail fu
 		rec.Class(fmt.Sprintf("cert_kind_%d", ct.Kind))
 		if ct.Kind == CPoolReg {
 			rec.Class(fmt.Sprintf("pool_reg_new=%v", !c.SS.Pools[ct.Pool]))
+			if c.SS.Pools[ct.Pool] && c.SS.PoolRetiring[ct.Pool] != nil {
+				rec.Class(fmt.Sprintf("%s:rereg_of_retiring_pool", era))
+			}
+		}
+		if (ct.Kind == CAuthHot || ct.Kind == CResignCold) && len(c.SS.Committee) > 0 {
+			rec.Class("committee_cert_with_committee_state")
 		}
 	}
 	if len(tx.Wdrl) > 0 {
